@@ -208,6 +208,13 @@ def rand_edit(rng, ref, pool, ids):
             items = [(rng.choice(ids), rand_value(rng)[:rng.choice([0, 1, 3, 8])]) for _ in range(rng.choice([0, 0, 1, 2, 4]))]
             return ("setresp %d %d %d %d %s" % (rng.choice([65, 69, 132]), rng.choice([0, 50, 65535]), rng.choice([0, 1]), len(items),
                                                " ".join("%d:%s" % (i, hx(v)) for i, v in items))).rstrip()
+        if j < 0.45:
+            items = [(rng.choice(ids + [6]), rand_value(rng)[:rng.choice([0, 1, 3])]) for _ in range(rng.choice([0, 1, 2, 3]))]
+            return ("build %s %s %d %d %d %d %s" % (rng.choice(["get", "post", "put", "delete", "observe", "observe"]), hx(rand_path(rng)),
+                                                   rng.choice([0, 50]), rng.choice([0, 1]), rng.choice([0, 1, 3]), len(items),
+                                                   " ".join("%d:%s" % (i, hx(v)) for i, v in items))).rstrip()
+        if j < 0.55:
+            return "notify %s" % hx(rand_value(rng)[:rng.choice([0, 1, 3, 8])])
         return rng.choice(["setu32 6 0", "observe", "observe", "recycle", "obsopts", "obsreq", "obscancel"])
     if k < 0.94:
         return "clone"
@@ -465,6 +472,29 @@ def glue_seqs(rng, count):
             seq += post[:rng.choice([1, 2, 3])]
             seq += ["obsopts", "obsreq", "path", "obscancel", "obsreq", "obsopts", "obscancel"]
         seqs.append(seq)
+    # ---- request builders of the generic client, driven with caller-owned option slices (spare capacity, a sibling slice
+    # over the same array, an Observe option among the caller's options), and notifications with ETags of different
+    # lengths before the deregistration
+    for n in range(count // 2):
+        seq = ["new pool 16"]
+        for _ in range(rng.choice([2, 3, 4])):
+            kind = rng.choice(["get", "post", "put", "delete", "observe", "observe", "observe"])
+            items = [(rng.choice([4, 6, 6, 12, 14, 15, 15, 17, 35, 60]), bytes(rng.randrange(256) for _ in range(rng.choice([0, 1, 2, 5]))))
+                     for _ in range(rng.choice([0, 1, 2, 3, 5]))]
+            path = rand_path(rng) if rng.random() < 0.8 else b"/" + b"s" * rng.choice([255, 256])
+            seq.append(("build %s %s %d %d %d %d %s" % (kind, hx(path), rng.choice([0, 50, 60, 65535]), rng.choice([0, 1]),
+                                                      rng.choice([0, 0, 1, 2, 5]), len(items),
+                                                      " ".join("%d:%s" % (i, hx(v)) for i, v in items))).rstrip())
+        seq += ["setpath %s" % hx(b"/obs/" + bytes(rng.choice(b"abc") for _ in range(3))), "setu32 6 0", "observe"]
+        lens = rng.sample([1, 2, 3, 4, 5, 6, 7, 8], rng.choice([2, 3, 4]))
+        if rng.random() < 0.6:
+            lens.sort(reverse=True)          # longer, then shorter
+        for ln in lens:
+            seq.append("notify %s" % hx(bytes(rng.randrange(1, 256) for _ in range(ln))))
+            if rng.random() < 0.2:
+                seq.append("notify -")
+        seq += ["obsopts", "obscancel", "obsreq", "notify 01"]
+        seqs.append(seq)
     return seqs
 
 
@@ -590,7 +620,7 @@ def nontrivial(seq, impl):
             ids.add("15")
         elif f[0] == "resetto":
             ids.update(x.split(":")[0] for x in f[2:])
-        elif f[0] in ("resetself", "resetslice", "recycle"):
+        elif f[0] in ("resetself", "resetslice", "recycle", "build", "notify"):
             pass
         elif f[0] == "setresp":
             ids.update(x.split(":")[0] for x in f[5:])
@@ -691,7 +721,9 @@ def explore(ctx, art):
         "is reset to a subset / permutation of ITS OWN options (sources alias the object's value buffer); size-boundary = "
         "glue = the library's own users of the list: ResponseWriter.SetResponse sequences on one writer (options, then none) "
         "and an observation whose request message is recycled and reused before the kept options are read back (Request, "
-        "GetObservationRequest, the deregistration request of Cancel); size-boundary = deterministic sweep over list sizes 11,12,13,14,15,16,17,20,24,32,33,40 (algorithm-switch thresholds: 12/13 of Go's "
+        "GetObservationRequest, the deregistration request of Cancel incl. the ETag of the latest notification after ETags "
+        "of different lengths), and the generic client's request builders New{Get,Post,Put,Delete,Observe}Request driven with "
+        "caller-owned option slices (spare capacity, a sibling slice over the same array, Observe among the options); size-boundary = deterministic sweep over list sizes 11,12,13,14,15,16,17,20,24,32,33,40 (algorithm-switch thresholds: 12/13 of Go's "
         "pdqsort, capacity 16, binary-search depths): reset-to / clone / reset-to-own-permutation with unordered inputs "
         "with runs of repeated numbers, Add/Set/Remove/SetPath/AddQuery on lists of those sizes, and stored-byte totals "
         "254..258, 511..513 around the 256-byte value buffer. evaluations = operation lines executed on the real code and judged. distinct_nontrivial = number of "
